@@ -41,7 +41,7 @@ def show(classes: list) -> str:
 
 def run(rep: Report, tier: str, only=None) -> None:
 	thorough = tier == 'thorough'
-	n = 5 if thorough else 3
+	n = 4 if thorough else 3  # 5 did not finish inside two 4 h background runs on a shared machine (THOROUGH_RUNS.md)
 	k = 2 if thorough else 1
 	t = 2400 if thorough else 240
 	jobs: list[Job] = []
